@@ -153,6 +153,26 @@ let run_case (line : Stdlib.String.t) =
      let l = next_zlist t in let c = next_z t in let v = next_zlist t in
      out_res (fun p -> out_zlist p) (set_prefix l c);
      out_res (fun (cl, cc) -> out_zlist cl; out_z cc) (complete_with l c v)
+   | "term" ->
+     (* rows cols nchunks {bytes}* : the terminal model fed chunk after chunk; after each: cursor, flags, the rows *)
+     let rows = next_z t in let cols = next_z t in
+     let chunks = next_list next_zlist t in
+     let tm = ref (term_init rows cols) in
+     List.iter (fun ch ->
+         tm := term_feed !tm ch;
+         out_str "T"; out_z !tm.t_r; out_z !tm.t_c; out_bool !tm.t_pend; out_z !tm.t_style; out_bool !tm.t_visible;
+         out_z !tm.t_scrolled; out_z !tm.t_queries;
+         out_list (fun r -> out_zlist (row_text r)) !tm.t_grid) chunks
+   | "layout" ->
+     let rows = next_z t in let cols = next_z t in
+     let prompt = next_zlist t in let buf = next_zlist t in let cpos = next_z t in
+     let (tm, (cr, cc)) = layout rows cols prompt buf cpos in
+     out_z cr; out_z cc; out_z tm.t_scrolled;
+     out_list (fun r -> out_zlist (row_text r)) tm.t_grid
+   | "coords" ->
+     let w = next_z t in let buf = next_zlist t in let cpos = next_z t in let indent = next_z t in
+     out_res (fun (x, y) -> out_z x; out_z y) (coordinates_cursor w buf cpos indent);
+     (let (x, y) = coordinates_line w buf indent in out_z x; out_z y)
    | "edcmds" -> out_list out_zlist modelled_commands
    | "quote" -> let c = next_z t in out_zlist (quote c)
    | _ -> out_str ("UNKNOWN-OP " ^ op));
